@@ -48,12 +48,33 @@ type c19mxSess struct {
 	claimed bool // matched with a connection object of the client side
 	rsets   int
 	rcpts   []string
+	// go-smtp resets the session once more after every DATA, after the reply went out (so possibly while the
+	// harness is already at the next operation): that call is not a RSET command
+	afterData bool
 }
 
 type c19mxBackend struct {
 	mu       sync.Mutex
 	dom      int
 	sessions []*c19mxSess
+	// the next RSET that arrives is not answered until the harness says so (a slow next hop): holdHit is closed
+	// when it arrives, the answer is sent when holdGo is closed
+	holdArmed bool
+	holdHit   chan struct{}
+	holdGo    chan struct{}
+}
+
+func (b *c19mxBackend) arm() (hit, rel chan struct{}) {
+	b.mu.Lock()
+	defer b.mu.Unlock()
+	b.holdArmed, b.holdHit, b.holdGo = true, make(chan struct{}), make(chan struct{})
+	return b.holdHit, b.holdGo
+}
+
+func (b *c19mxBackend) disarm() {
+	b.mu.Lock()
+	b.holdArmed = false
+	b.mu.Unlock()
 }
 
 func (b *c19mxBackend) NewSession(c *smtp.Conn) (smtp.Session, error) {
@@ -66,8 +87,19 @@ func (b *c19mxBackend) NewSession(c *smtp.Conn) (smtp.Session, error) {
 
 func (s *c19mxSess) Reset() {
 	s.be.mu.Lock()
+	if s.afterData {
+		s.afterData = false
+		s.be.mu.Unlock()
+		return
+	}
 	s.rsets++
+	armed, hit, rel := s.be.holdArmed, s.be.holdHit, s.be.holdGo
+	s.be.holdArmed = false
 	s.be.mu.Unlock()
+	if armed {
+		close(hit)
+		<-rel
+	}
 }
 
 func (s *c19mxSess) Logout() error {
@@ -88,6 +120,9 @@ func (s *c19mxSess) Rcpt(to string, _ *smtp.RcptOptions) error {
 
 func (s *c19mxSess) Data(r io.Reader) error {
 	_, err := io.Copy(io.Discard, r)
+	s.be.mu.Lock()
+	s.afterData = true
+	s.be.mu.Unlock()
 	return err
 }
 
@@ -171,12 +206,53 @@ func (s *c19mxSess) isClosed() bool {
 	return s.closed
 }
 
+// c19mxCtx is the context of one delivery whose end the history decides (op x<k>): cancelled, or — when it carries
+// a deadline — timed out.  The deadline is far away and never fires by itself.
+type c19mxCtx struct {
+	mu       sync.Mutex
+	done     chan struct{}
+	err      error
+	deadline bool
+}
+
+var c19mxFar = time.Unix(1<<36, 0)
+
+func (c *c19mxCtx) Deadline() (time.Time, bool) {
+	if c.deadline {
+		return c19mxFar, true
+	}
+	return time.Time{}, false
+}
+func (c *c19mxCtx) Done() <-chan struct{} { return c.done }
+func (c *c19mxCtx) Err() error {
+	c.mu.Lock()
+	defer c.mu.Unlock()
+	return c.err
+}
+func (c *c19mxCtx) Value(key interface{}) interface{} { return nil }
+func (c *c19mxCtx) fire() {
+	c.mu.Lock()
+	defer c.mu.Unlock()
+	if c.err != nil {
+		return
+	}
+	c.err = context.Canceled
+	if c.deadline {
+		c.err = context.DeadlineExceeded
+	}
+	close(c.done)
+}
+
+// how long a delivery whose context is done gets to come back while the answer to its RSET probe is still
+// withheld (the unchanged code never does: Get waits for the answer; the verdict on it does not depend on this)
+const c19mxGrace = 25 * time.Millisecond
+
 // ---------------------------------------------------------------- one case
 
 type c19mxCase struct {
 	maxKeys, maxConns int
 	maxLife, stale    int64
-	ops               []string // o<k> c t<d> b<id> k s
+	ops               []string // o<k> x<k> c t<d> b<id> k s
 	style             string
 }
 
@@ -303,17 +379,68 @@ func c19mxRun1(env *c19mxEnv, cs *c19mxCase, out *c19mxRec) {
 	)
 	step := func(o string) {
 		switch o[0] {
-		case 'o':
+		case 'o', 'x':
 			k, _ := strconv.Atoi(o[1:])
 			dom := c19mxDomain(k)
 			nmsg++
+			var ctx context.Context = ctx
+			var cctx *c19mxCtx
+			if o[0] == 'x' {
+				cctx = &c19mxCtx{done: make(chan struct{}), deadline: nmsg%2 == 1}
+				ctx = cctx
+			}
 			d, err := tgt.Start(ctx, &module.MsgMetadata{ID: "c19-" + strconv.Itoa(nmsg)}, "sender@example.org")
 			if err != nil {
 				toks = append(toks, "E")
 				return
 			}
-			if err := d.AddRcpt(ctx, "rcpt"+strconv.Itoa(nmsg)+"@"+dom, smtp.RcptOptions{}); err != nil {
+			rcpt := "rcpt" + strconv.Itoa(nmsg) + "@" + dom
+			if cctx == nil {
+				err = d.AddRcpt(ctx, rcpt, smtp.RcptOptions{})
+			} else {
+				// x<k>: the next hop is slow to answer the RSET by which pool.Get probes a pooled connection, and the
+				// context of the delivery is cancelled / times out while Get waits for the answer.  (No pooled
+				// connection is probed: an ordinary delivery.)
+				hit, rel := env.bes[k].arm()
+				res := make(chan interface{}, 1)
+				go func() {
+					defer func() {
+						if p := recover(); p != nil {
+							res <- fmt.Sprintf("panic: %v", p)
+						}
+					}()
+					res <- d.AddRcpt(ctx, rcpt, smtp.RcptOptions{})
+				}()
+				var got interface{}
+				select {
+				case got = <-res:
+					out.Stat("mx.x: no pooled connection was probed")
+				case <-hit:
+					cctx.fire()
+					out.Stat("mx.x: context done while Get waits for the answer to its probe")
+					early := false
+					select {
+					case got = <-res:
+						early = true
+						out.Stat("mx.x: the delivery came back while the probe was in flight")
+					case <-time.After(c19mxGrace):
+					}
+					close(rel)
+					if !early {
+						got = <-res
+					}
+				}
+				env.bes[k].disarm()
+				switch g := got.(type) {
+				case string:
+					panic(g)
+				case error:
+					err = g
+				}
+			}
+			if err != nil {
 				toks = append(toks, "E")
+				out.Stat("mx.delivery failed: " + map[bool]string{true: "context done", false: "other"}[cctx != nil && cctx.Err() != nil])
 				d.Abort(ctx)
 				return
 			}
@@ -438,8 +565,11 @@ func c19mxRun1(env *c19mxEnv, cs *c19mxCase, out *c19mxRec) {
 		return
 	}
 	// ---- quiescence: the `go conn.Close()` goroutines of the pool finish; what is open now stays open ----
-	patience := 25 * time.Second
-	if atomic.LoadInt32(&c19mxSlow) >= 2 {
+	patience := 10 * time.Second
+	if n := atomic.LoadInt32(&c19mxSlow); n >= 6 {
+		// the tree under test loses connections: the verdict is on record several times over, with generous patience
+		patience = 100 * time.Millisecond
+	} else if n >= 2 {
 		patience = time.Second
 	}
 	deadline := time.Now().Add(patience)
@@ -555,7 +685,51 @@ func c19mxGen(r *vh.Rng) *c19mxCase {
 			nopen--
 		}
 	}
-	switch r.Intn(3) {
+	style := r.Intn(3)
+	if r.Chance(14) {
+		style = 3
+	}
+	switch style {
+	case 3:
+		// the context of a delivery is cancelled / times out while pool.Get waits for the answer of a slow next hop to
+		// the RSET by which it probes a pooled connection (some of the pooled ones are past their lifetime or were
+		// dropped by the server): whatever the delivery is told, the connection is handed out, pooled, or closed
+		cs.style = "cancel"
+		if cs.maxConns == 0 {
+			cs.maxConns = 1 + r.Intn(3)
+		}
+		k := r.Intn(nd)
+		n := 1 + r.Intn(cs.maxConns)
+		for i := 0; i < n; i++ {
+			cs.ops = append(cs.ops, "o"+strconv.Itoa(k))
+		}
+		if r.Chance(30) {
+			cs.ops = append(cs.ops, "t"+strconv.Itoa(1+r.Intn(L)))
+		}
+		for i := 0; i < n; i++ {
+			cs.ops = append(cs.ops, "c")
+		}
+		if r.Chance(25) {
+			cs.ops = append(cs.ops, "b"+strconv.Itoa(r.Intn(n)))
+		}
+		if r.Chance(40) {
+			cs.ops = append(cs.ops, "t"+strconv.Itoa([]int{1, L, L, L + 1}[r.Intn(4)]))
+		}
+		cs.ops = append(cs.ops, "x"+strconv.Itoa(k))
+		nopen++
+		for i := r.Intn(3); i > 0; i-- {
+			cs.ops = append(cs.ops, r.Pick("o", "o", "x")+strconv.Itoa(k))
+			nopen++
+			if r.Chance(40) {
+				emitCommit()
+			}
+		}
+		if r.Chance(30) {
+			cs.ops = append(cs.ops, "k")
+		}
+		for nopen > 0 {
+			emitCommit()
+		}
 	case 0:
 		// a connection is returned well after its last use, then asked for inside the lifetime of its bucket:
 		// the bucket is alive, the connection is (or is not) over its idle lifetime
@@ -626,6 +800,10 @@ func c19mxGen(r *vh.Rng) *c19mxCase {
 		n := 5 + r.Intn(12)
 		for i := 0; i < n; i++ {
 			switch x := r.Intn(100); {
+			case x < 3:
+				cs.ops = append(cs.ops, "x"+strconv.Itoa(r.Intn(nd)))
+				nopen++
+				nconn++
 			case x < 35:
 				emitOpen()
 			case x < 65:
@@ -668,7 +846,7 @@ func c19mxParse(line string) (*c19mxCase, error) {
 			return nil, fmt.Errorf("empty op")
 		}
 		switch o[0] {
-		case 'o':
+		case 'o', 'x':
 			if k := n(o[1:]); k < 0 || k >= c19mxDomains {
 				return nil, fmt.Errorf("no such domain")
 			}
